@@ -27,6 +27,7 @@ ASSUMPTIONS = [
 ]
 ANCHOR_FILES = ("src/pydrobert/speech/filters.py", "src/pydrobert/speech/util.py")
 EXHAUSTIVE_PARTS = ["all window widths 0..W for Bartlett/Blackman/Hamming/Hann (W=600 quick, 4096 thorough)"]
+SUITE_TESTS = ['tests/test_filters.py', 'tests/test_util.py', 'tests/test_compute.py']  # the repository's own tests as an extra monitored workload (thorough tier)
 LEVEL_TEXT = (
     "Every window width in the tier's range is enumerated for the four NumPy-based windows and compared sample by sample with the NumPy "
     "shape divided by its area; GammaWindow, circshift_fourier (including the documented default dft_size), gauss_quant and the Hz/rad "
@@ -346,6 +347,10 @@ def plan(tier, seed):
 
 
 def run_shard(spec, rec):
+    if "suite" in spec:
+        from .. import suite
+
+        return suite.run(__name__.rsplit(".", 1)[-1], spec, rec)
     mon = Mon(rec)
     mon.attach()
     for case in spec["cases"]:
